@@ -506,6 +506,120 @@ def scope_r16_1(U, envs):
   return scope
 
 
+# ------------------------------------------------------------------ R16.8
+def _assigned(t):
+  if isinstance(t, ast.Name):
+    return {t.id}
+  if isinstance(t, (ast.Tuple, ast.List)):
+    return set().union(*[_assigned(e) for e in t.elts]) if t.elts else set()
+  return set()
+
+
+def _done_slice(fnode, given=('pipeline_state', 'pipeline_state0', 'state', 'action', 'self')):
+  """Top-level statements of `step` that `done` depends on (backward slice over local names); the
+  names in `given` are inputs of the slice (the new pipeline state is a symbol)."""
+  need, keep = {'done'}, []
+  for s_ in reversed(fnode.body):
+    tg = set()
+    if isinstance(s_, ast.Assign):
+      for t in s_.targets:
+        tg |= _assigned(t)
+    elif isinstance(s_, ast.AugAssign):
+      tg = _assigned(s_.target)
+    tg -= set(given)
+    if tg & need:
+      keep.append(s_)
+      if not isinstance(s_, ast.AugAssign):
+        need -= tg
+      need |= {n.id for n in ast.walk(s_.value) if isinstance(n, ast.Name)}
+  return list(reversed(keep)), need
+
+
+def r16_8(U, rep, envs):
+  """Termination is the documented interval test: with terminate_when_unhealthy, done == 0 when every
+  monitored quantity is strictly inside its healthy range and done == 1 as soon as one of them leaves it
+  on either side.  [FIN] decided on the slice of `step` that defines `done`, abstractly interpreted with
+  symbolic range bounds; the comparisons are decided by sign facts, scenario by scenario."""
+  from braxlint import avn
+  from braxlint.avn import Rat, Struct, symarr
+  from braxlint.avnlib import T, new_interp, sym
+  from braxlint.props.c06 import sign_decide
+  from braxlint import scenario
+  nchecked = 0
+  for envname, (modname, cname) in sorted(envs.items()):
+    init, step = method(U, modname, cname, '__init__'), method(U, modname, cname, 'step')
+    if init is None or step is None:
+      continue
+    ranges = sorted({t.attr for n in ast.walk(init.node) if isinstance(n, ast.Assign) for t in n.targets
+                     if isinstance(t, ast.Attribute) and dotted(t) and dotted(t)[0] == 'self' and t.attr.startswith('_healthy_')
+                     and t.attr.endswith('_range')})
+    if not ranges:
+      continue
+    nchecked += 1
+    stmts, free = _done_slice(step.node)
+    I = new_interp(U.repo)
+    attrs = {'_terminate_when_unhealthy': True}
+    bounds = {}
+    for r in ranges:
+      lo, hi = sym('lo' + r), sym('hi' + r)
+      attrs[r] = (lo, hi)
+      bounds[Rat.lift(lo).key()] = (r, 'lo')
+      bounds[Rat.lift(hi).key()] = (r, 'hi')
+    selfv = Struct('Env', attrs)
+    ps = Struct('PipelineState', {'x': T('x', (3,)), 'xd': T('xd', (3,)), 'q': symarr('q', (7,)), 'qd': symarr('qd', (6,))})
+    env = {'v': {'self': selfv, 'pipeline_state': ps, 'pipeline_state0': ps, 'state': Struct('State', {'pipeline_state': ps}),
+                 'action': symarr('act', (3,))}, 'p': None}
+    try:
+      for s_ in stmts:
+        I.stmt(s_, env, step.mod.name)
+      done = Rat.lift(env['v']['done'])
+    except AnalysisError as e:
+      raise AnalysisError('R16.8 %s: cannot interpret the termination slice of step: %s' % (envname, e))
+    # monitored (quantity, range) pairs from the comparison atoms of done
+    atoms = {nm for mono in done.n.t for nm, _ in mono if avn._is_bool_name(nm)} | {
+        nm for mono in done.d.t for nm, _ in mono if avn._is_bool_name(nm)}
+    mon = {}
+    for a in atoms:
+      ent = avn.ATOM_ARGS.get(a)
+      if not ent or ent[1][0] != '<':
+        continue
+      _, l_, r_ = ent[1]
+      for bound, other in ((l_, r_), (r_, l_)):
+        kb = Rat.lift(bound).key()
+        if kb in bounds:
+          mon.setdefault((Rat.lift(other).key(), bounds[kb][0]), Rat.lift(other))
+    seen_ranges = {r for (_, r) in mon}
+    rep.check(seen_ranges == set(ranges), 'R16.8', '%s: every healthy range gates termination' % envname,
+              'done does not depend on %s' % ', '.join(sorted(set(ranges) - seen_ranges)), where=step.where(),
+              construct='ranges %s; %d monitored comparisons' % (', '.join(ranges), len(mon)))
+
+    def facts(out=None, side=None):
+      f = {}
+      for (kx, r), x in mon.items():
+        lo, hi = attrs[r]
+        below = out == (kx, r) and side == 'below'
+        above = out == (kx, r) and side == 'above'
+        f[(x - lo).key()] = '-' if below else '+'
+        f[(hi - x).key()] = '-' if above else '+'
+      return f
+
+    val = lambda f: scenario.subst(done, sign_decide(f))
+    inside = val(facts())
+    bad = []
+    if not (inside.is_const() and inside.constval() == 0):
+      bad.append('all quantities strictly inside their ranges -> done = %r (expected 0)' % (inside,))
+    for key in sorted(mon, key=repr):
+      for side in ('below', 'above'):
+        v = val(facts(key, side))
+        if not (v.is_const() and v.constval() == 1):
+          bad.append('a quantity %s its %s -> done = %r (expected 1)' % (side, key[1], v))
+    rep.check(not bad, 'R16.8', '%s: done == [some monitored quantity outside its healthy range]' % envname,
+              lambda: 'the termination predicate is not the interval test: ' + '; '.join(bad[:3]), where=step.where(),
+              construct='%d scenarios decided by sign facts' % (1 + 2 * len(mon)))
+  if nchecked < 4:
+    raise AnalysisError('R16.8 found only %d environments with healthy ranges (floor 4: ant, hopper, humanoid, walker2d)' % nchecked)
+
+
 def run(U, rep, tier):
   envs = physics_envs(U)
   if len(envs) < 11:
@@ -515,4 +629,5 @@ def run(U, rep, tier):
   r16_4(U, rep, envs)
   r16_5_6(U, rep, envs)
   r16_7(U, rep)
+  r16_8(U, rep, envs)
   r16_1(U, rep, scope_r16_1(U, envs), tier)
